@@ -34,10 +34,12 @@ const (
 	opWrapW
 	opFlush
 	opHeader304
+	opPutS1Same
+	opPutCSame
 	c11NumOps
 )
 
-var c11Names = [...]string{"PutS(k1,n1)", "PutS(k2,n2)", "DelS(k1)", "DelAllS(keep)", "PutC(rm,c1)", "DelC(rm)", "ReadS(k1)", "ReadC(rm)", "WriteHeader(200)", "WriteHeader(302)", "Write(x)", "WrapU", "WrapW", "FlushIfFlusher", "WriteHeader(304)"}
+var c11Names = [...]string{"PutS(k1,n1)", "PutS(k2,n2)", "DelS(k1)", "DelAllS(keep)", "PutC(rm,c1)", "DelC(rm)", "ReadS(k1)", "ReadC(rm)", "WriteHeader(200)", "WriteHeader(302)", "Write(x)", "WrapU", "WrapW", "FlushIfFlusher", "WriteHeader(304)", "PutS(k1,v1=arrived-with)", "PutC(rm,c0=arrived-with)"}
 
 type c11Entry struct {
 	kind string // S | C | H | B
@@ -133,6 +135,17 @@ func c11Run(first int, maxLen int, dl time.Time) engine.UnitResult {
 				authboss.PutSession(w, "k1", "n1")
 				if !wrote {
 					wantS = append(wantS, authboss.ClientStateEvent{Kind: authboss.ClientStateEventPut, Key: "k1", Value: "n1"})
+				}
+			case opPutS1Same:
+				// the value the request arrived with, written again (after a delete it is not a no-op)
+				authboss.PutSession(w, "k1", "v1")
+				if !wrote {
+					wantS = append(wantS, authboss.ClientStateEvent{Kind: authboss.ClientStateEventPut, Key: "k1", Value: "v1"})
+				}
+			case opPutCSame:
+				authboss.PutCookie(w, "rm", "c0")
+				if !wrote {
+					wantC = append(wantC, authboss.ClientStateEvent{Kind: authboss.ClientStateEventPut, Key: "rm", Value: "c0"})
 				}
 			case opPutS2:
 				authboss.PutSession(w, "k2", "n2")
@@ -346,7 +359,7 @@ func (nopLogger) Error(string) {}
 func init() {
 	engine.Register(&engine.Property{
 		ID: "C11", Level: "exploration",
-		Rule: "all handler programs up to the tier's length over 15 operations (put/del/delete-all on the session, put/del on the cookie store, reads, WriteHeader 200/302/304, Write, two kinds of response-writer wrapper, Flush through the http.Flusher type assertion when the writer offers it) executed inside the real LoadClientStateMiddleware with recording stores; compared with reference list semantics; non-trivial classes = distinct (#session events, #cookie events, wrote?) outcomes",
+		Rule: "all handler programs up to the tier's length over 17 operations (put/del/delete-all on the session, put/del on the cookie store, puts of the very values the request arrived with, reads, WriteHeader 200/302/304, Write, two kinds of response-writer wrapper, Flush through the http.Flusher type assertion when the writer offers it) executed inside the real LoadClientStateMiddleware with recording stores; compared with reference list semantics; non-trivial classes = distinct (#session events, #cookie events, wrote?) outcomes",
 		Units: func(tier string) []engine.Unit {
 			maxLen := 6
 			if tier == "thorough" {
